@@ -122,9 +122,11 @@ func (s *TableAggregator) OrderedRows(sorter sorting.NameValueSorter) []*TableRo
 
 func (s *TableAggregator) ComputeMinMax() (min, max int64) {
 	min, max = math.MaxInt64, math.MinInt64
+	hasCell := false
 
 	for _, r := range s.rows {
 		for colKey := range s.cols {
+			hasCell = true
 			val := r.cols[colKey]
 			if val < min {
 				min = val
@@ -135,11 +137,8 @@ func (s *TableAggregator) ComputeMinMax() (min, max int64) {
 		}
 	}
 
-	if min == math.MaxInt64 {
-		min = 0
-	}
-	if max == math.MinInt64 {
-		max = 0
+	if !hasCell { // empty table (a cell may legitimately equal the int64 limits)
+		min, max = 0, 0
 	}
 	return
 }
